@@ -49,6 +49,7 @@ type Outcome struct {
 	Counters   map[string]int64   // fault kinds fired/delivered, probes, yields …
 	TraceHash  string             // normalised trace hash of the violating (or last) execution
 	Sample     interface{}        // a written-out view of the case for the evidence file
+	Extra      []*Violation       // further, different violations observed in the same run (race reports)
 	KnownHits  map[int]int        // index into Known -> occurrences in this case
 	KnownFirst map[int]*Violation // first occurrence per known finding
 }
@@ -184,6 +185,7 @@ type Partial struct {
 	KnownHits  map[string]int    `json:"known_hits"` // finding "what" -> occurrences
 	KnownDemo  map[string]string `json:"known_demo"` // finding "what" -> example
 	Trouble    []string          `json:"trouble"`
+	TraceLog   []string          `json:"trace_log,omitempty"` // with VERIF_TRACELOG=1: "case_seed trace_hash" per case (determinism self-test)
 	WallS      float64           `json:"wall_s"`
 }
 
@@ -229,6 +231,31 @@ func ShrinkCase(p Prop, c interface{}, v *Violation, budget time.Duration) (inte
 	return best, bestOut, steps
 }
 
+// shrinkExternal minimises c with every candidate evaluated in a fresh process.
+func shrinkExternal(p Prop, c interface{}, o *Outcome, try func(interface{}, *Violation, string) (bool, string), budget time.Duration) (interface{}, *Outcome) {
+	deadline := time.Now().Add(budget)
+	best := c
+	bestOut := &Outcome{Violation: o.Violation, TraceHash: o.TraceHash}
+	// the unshrunk case must itself reproduce in a fresh process
+	if ok, h := try(c, o.Violation, o.TraceHash); ok {
+		bestOut.TraceHash = h
+	}
+	for improved := true; improved && time.Now().Before(deadline); {
+		improved = false
+		for _, cand := range p.Shrink(best) {
+			if time.Now().After(deadline) {
+				break
+			}
+			if ok, h := try(cand, o.Violation, ""); ok {
+				best, improved = cand, true
+				bestOut = &Outcome{Violation: o.Violation, TraceHash: h}
+				break
+			}
+		}
+	}
+	return best, bestOut
+}
+
 // WorkerConfig drives RunWorker.
 type WorkerConfig struct {
 	Seed      int64
@@ -245,6 +272,9 @@ type WorkerConfig struct {
 	// NoShrinkInProcess: violations are only written out unshrunk (race binaries
 	// shrink in fresh processes, driven by the orchestrator).
 	NoShrinkInProcess bool
+	// External, when set, evaluates a shrink candidate in a fresh process and
+	// reports whether the same violation reproduced, and its trace hash.
+	External func(c interface{}, v *Violation, traceHash string) (bool, string)
 }
 
 func RunWorker(p Prop, cfg WorkerConfig) (*Partial, error) {
@@ -261,6 +291,9 @@ func RunWorker(p Prop, cfg WorkerConfig) (*Partial, error) {
 			cfg.PostRun(c, o)
 		}
 		part.Cases++
+		if os.Getenv("VERIF_TRACELOG") != "" {
+			part.TraceLog = append(part.TraceLog, fmt.Sprintf("%d %s %d", caseSeed, o.TraceHash, o.Runs))
+		}
 		part.Runs += o.Runs
 		for _, h := range o.Hashes {
 			hashes[h] = true
@@ -291,26 +324,35 @@ func RunWorker(p Prop, cfg WorkerConfig) (*Partial, error) {
 		if o.Violation == nil {
 			continue
 		}
-		k := o.Violation.Class + "|" + o.Violation.Key
-		if ref, ok := seen[k]; ok {
-			ref.Count++
-			continue
-		}
-		v := o.Violation
-		best, bestOut := c, o
-		if !cfg.NoShrinkInProcess {
-			sc, so, _ := ShrinkCase(p, c, v, 60*time.Second)
-			if so != nil {
-				best, bestOut = sc, so
+		stop := false
+		for _, v := range append([]*Violation{o.Violation}, o.Extra...) {
+			k := v.Class + "|" + v.Key
+			if ref, ok := seen[k]; ok {
+				ref.Count++
+				continue
+			}
+			vo := &Outcome{Violation: v, TraceHash: o.TraceHash}
+			best, bestOut := c, vo
+			if os.Getenv("VERIF_NOSHRINK") != "" {
+				// enumeration sweeps: keep the unshrunk case
+			} else if cfg.External != nil {
+				best, bestOut = shrinkExternal(p, c, vo, cfg.External, 90*time.Second)
+			} else if !cfg.NoShrinkInProcess {
+				sc, so, _ := ShrinkCase(p, c, v, 60*time.Second)
+				if so != nil {
+					best, bestOut = sc, so
+				}
+			}
+			path, err := WriteReplay(cfg.ReplayDir, p.ID(), cfg.Seed, caseSeed, best, bestOut)
+			if err != nil {
+				return nil, err
+			}
+			seen[k] = &ReplayRef{Violation: *bestOut.Violation, Path: path, Count: 1}
+			if len(seen) >= 40 {
+				stop = true
 			}
 		}
-		path, err := WriteReplay(cfg.ReplayDir, p.ID(), cfg.Seed, caseSeed, best, bestOut)
-		if err != nil {
-			return nil, err
-		}
-		ref := &ReplayRef{Violation: *bestOut.Violation, Path: path, Count: 1}
-		seen[k] = ref
-		if len(seen) >= 12 {
+		if stop {
 			break
 		}
 	}
